@@ -138,6 +138,13 @@ def build(tier, work, builder):
     J("c06_error_str", "h_c06_error_str", ["error_t::str (column arithmetic)"], cbmc_args=["--unsigned-overflow-check"])
     J("c06_block_lemma", "h_c06_block_lemma", ["PositionTracker::setPath/increment/newline + Document::add_error (composition)"],
       bound_note="one block: <= 2 line breaks and <= 3 tokens after an arbitrary history summarised by the invariant; table <= 6 entries", level="bounded", unwind=12)
+    # ---- part C: under which XPath the XML reader hands a text block to the grammar (the scripts of C04's kernel K1, with
+    #      the c06.reader.* obligations switched on instead of the c04.* ones)
+    from checks import C04
+    w4 = os.path.join(work, "c04"); os.makedirs(w4, exist_ok=True)
+    xj, xs = C04.reader_jobs(w4, builder, for_c06=True)
+    jobs += xj
+    slices += xs
     return {
         "jobs": jobs, "slices": [s.info() for s in slices],
         "checker_cmd": "part A: goto-cc; goto-instrument --dfcc <h> --enforce-contract <f> [--replace-call-with-contract g] --apply-loop-contracts; cbmc (unbounded). part B: assume/call/assert harnesses, cbmc --unwind 10 --unwinding-assertions",
@@ -146,7 +153,7 @@ def build(tier, work, builder):
                   "paths (shared_ptr<std::string>) and message strings are identities"],
         "trusted_base": ["CBMC 6.11 (C front end + dfcc loop contracts; C++ front end for part B)", "stubs in contracts/C06/pos06.cpp: fixed-capacity std::vector<line_t>/std::vector<error_t>, path/message identities, ParserBuilder dispatch to the sliced ExpressionBuilder::add_position / AbstractBuilder::set_position"],
         "assumptions": ["flex calls YY_USER_ACTION once per matched token and the newline rules of lexer.l call tracker.newline once per consumed line break (generated scanner: not under contract; YY_USER_ACTION's text is checked to be the expected three statements)",
-                        "XPath construction and per-block setPath calls of xmlreader.cpp (libxml2, Path::str) are not under contract",
+                        "XML reader: that a label's text is parsed under the path state of that label element, and that location / branchpoint diagnostics are attributed to their element, IS under contract (c06_xpath_*: Path as a per-level (tag, sibling index) ghost); the text Path::str prints for a path state, and the per-block calls for declarations / parameters / system / queries, are not",
                         "the type checker attaching the right expression position to each diagnostic (TypeChecker::handleError) is not under contract",
                         "sortedness of the table is maintained by add() (c06_add) and used in c06_find_unique by instantiation at the two needed index pairs; the step from adjacent to global monotonicity is the usual induction (meta)",
                         "tracker.position does not wrap (no unsigned overflow in ++position / position += n): history dependent, belongs to C15",
